@@ -1,0 +1,69 @@
+//go:build verif
+
+// Contracts for the public RPC lookups (property C12). Comment-only file read by
+// /verif/engine (govc); compiled only with -tags=verif.
+package publicrpc
+
+//@ func decodeEmitterAddress(emitterAddress string) (a *vaa.Address, err error)
+//@   props C12
+//@   ensures [ok-iff] err == nil <==> hexok(emitterAddress) && len(unhex(emitterAddress)) == 32
+//@   ensures [value] err == nil ==> a != nil && fresh(a) && (forall i in 0..32 :: at32(*a, i) == unhex(emitterAddress)[i]) && *a == from32(unhex(emitterAddress))
+//@   modifies fresh cell:vaa.Address
+//@   nopanic
+
+// the identifier a request names, field by field (chain ids as the request carries them)
+//@ pure reqId(m *publicrpcv1.MessageID, a vaa.Address) = struct("vaa.VAAID", m.EmitterChain, a, m.TargetChain, m.Sequence)
+
+// GetSignedVAA: the bytes returned are those stored under exactly the requested identifier -
+// chain ids outside the 16-bit range name no stored VAA and must not be folded onto one;
+// an absent identifier yields an error, never bytes.
+//@ func (s *PublicrpcServer) GetSignedVAA(ctx context.Context, req *publicrpcv1.GetSignedVAARequest) (resp *publicrpcv1.GetSignedVAAResponse, err error)
+//@   props C12
+//@   requires s != nil && s.db != nil && req != nil
+//@   ensures [result-or-error] (err == nil) == (resp != nil)
+//@   ensures [chain-ids-not-narrowed] err == nil ==> req.MessageId != nil && 0 <= req.MessageId.EmitterChain && req.MessageId.EmitterChain < 65536 && 0 <= req.MessageId.TargetChain && req.MessageId.TargetChain < 65536
+//@   ensures [bytes-of-exactly-that-id] err == nil ==> hexok(req.MessageId.EmitterAddress) && len(unhex(req.MessageId.EmitterAddress)) == 32
+//@     | && stored(s.db, reqId(req.MessageId, from32(unhex(req.MessageId.EmitterAddress)))) && resp.VaaBytes == storedBytes(s.db, reqId(req.MessageId, from32(unhex(req.MessageId.EmitterAddress))))
+//@   ensures [read-only] storeUnchanged(s.db)
+//@   modifies lib:db.store, fresh publicrpcv1.GetSignedVAAResponse.*, fresh cell:vaa.Address
+//@   nopanic
+//@   replay publicrpc_lookup.go.tmpl
+
+// GetNonGovernanceVAABatch: every entry is the stored VAA of the requested stream with the
+// entry's sequence; every requested sequence that is stored is returned.
+//@ func (s *PublicrpcServer) GetNonGovernanceVAABatch(ctx context.Context, req *publicrpcv1.GetNonGovernanceVAABatchRequest) (resp *publicrpcv1.GetNonGovernanceVAABatchResponse, err error)
+//@   props C12
+//@   requires s != nil && s.db != nil && req != nil
+//@   ensures [chain-ids-not-narrowed] err == nil && len(resp.Entries) > 0 ==> 0 <= req.EmitterChain && req.EmitterChain < 65536 && 0 <= req.TargetChain && req.TargetChain < 65536
+//@   ensures [entries-of-exactly-that-stream] err == nil ==> resp != nil && hexok(req.EmitterAddress) && len(unhex(req.EmitterAddress)) == 32 && (forall j in 0..len(resp.Entries) :: resp.Entries[j] != nil
+//@     | && stored(s.db, struct("vaa.VAAID", req.EmitterChain, from32(unhex(req.EmitterAddress)), req.TargetChain, resp.Entries[j].Sequence))
+//@     | && resp.Entries[j].VaaBytes == storedBytes(s.db, struct("vaa.VAAID", req.EmitterChain, from32(unhex(req.EmitterAddress)), req.TargetChain, resp.Entries[j].Sequence)))
+//@   ensures [read-only] storeUnchanged(s.db)
+//@   modifies lib:db.store, fresh publicrpcv1.GetNonGovernanceVAABatchResponse.*, fresh publicrpcv1.GetNonGovernanceVAABatchResponse_Entry.*, fresh cell:vaa.Address
+//@   nopanic
+//@   replay publicrpc_lookup.go.tmpl
+//@   loop [range req.Sequences]:
+//@     invariant [self] s != nil && s.db != nil && req != nil && emitterAddress != nil && storeUnchanged(s.db)
+//@     invariant [entries] forall j in 0..len(entries) :: entries[j] != nil && allocated(entries[j])
+//@       | && stored(s.db, struct("vaa.VAAID", req.EmitterChain, *emitterAddress, req.TargetChain, entries[j].Sequence))
+//@       | && entries[j].VaaBytes == storedBytes(s.db, struct("vaa.VAAID", req.EmitterChain, *emitterAddress, req.TargetChain, entries[j].Sequence))
+//@     invariant [chains] len(entries) > 0 ==> 0 <= req.EmitterChain && req.EmitterChain < 65536 && 0 <= req.TargetChain && req.TargetChain < 65536
+
+// GetGovernanceVAABatch: entries are stored VAAs of the configured governance emitter only.
+//@ func (s *PublicrpcServer) GetGovernanceVAABatch(ctx context.Context, req *publicrpcv1.GetGovernanceVAABatchRequest) (resp *publicrpcv1.GetGovernanceVAABatchResponse, err error)
+//@   props C12
+//@   requires s != nil && s.db != nil && req != nil
+//@   ensures [entries-of-the-governance-emitter] err == nil ==> resp != nil && (forall j in 0..len(resp.Entries) :: resp.Entries[j] != nil && 0 <= resp.Entries[j].TargetChain && resp.Entries[j].TargetChain < 65536
+//@     | && stored(s.db, struct("vaa.VAAID", s.governanceChainId, s.governanceEmitter, resp.Entries[j].TargetChain, resp.Entries[j].Sequence))
+//@     | && resp.Entries[j].VaaBytes == storedBytes(s.db, struct("vaa.VAAID", s.governanceChainId, s.governanceEmitter, resp.Entries[j].TargetChain, resp.Entries[j].Sequence)))
+//@   ensures [read-only] storeUnchanged(s.db)
+//@   modifies lib:db.store, fresh publicrpcv1.GetGovernanceVAABatchResponse.*, fresh publicrpcv1.GetGovernanceVAABatchResponse_Entry.*, fresh db.GovernanceVAA.*, fresh vaa.VAAID.*
+//@   nopanic
+//@   loop [range vaas]:
+//@     invariant [self] s != nil && s.db != nil && storeUnchanged(s.db)
+//@     invariant [from-db] forall j in 0..len(vaas) :: vaas[j] != nil && allocated(vaas[j])
+//@       | && stored(s.db, struct("vaa.VAAID", s.governanceChainId, s.governanceEmitter, vaas[j].TargetChain, vaas[j].Sequence))
+//@       | && vaas[j].VaaBytes == storedBytes(s.db, struct("vaa.VAAID", s.governanceChainId, s.governanceEmitter, vaas[j].TargetChain, vaas[j].Sequence))
+//@     invariant [entries] forall j in 0..len(entries) :: entries[j] != nil && allocated(entries[j]) && 0 <= entries[j].TargetChain && entries[j].TargetChain < 65536
+//@       | && stored(s.db, struct("vaa.VAAID", s.governanceChainId, s.governanceEmitter, entries[j].TargetChain, entries[j].Sequence))
+//@       | && entries[j].VaaBytes == storedBytes(s.db, struct("vaa.VAAID", s.governanceChainId, s.governanceEmitter, entries[j].TargetChain, entries[j].Sequence))
